@@ -20,8 +20,12 @@ def inline_private_model_helpers(fi: FunctionInfo) -> bool:
     if fi.cls in GRAPH_CLASSES and not fi.name.startswith("__"):
         from .ir import api_signature
         return api_signature(fi) is None  # an undocumented helper of the graph classes (see Walker.call)
-    if not fi.name.startswith("_") or fi.name.startswith("__"):
+    if fi.name.startswith("__"):
         return False
+    if not fi.name.startswith("_"):
+        # a public method the documented API does not have (a helper made public, e.g. `arc_weight(p, q)`): its body
+        from .ir import api_signature
+        return fi.cls in MODEL_CLASSES and api_signature(fi) is None and not fi.decorators
     return fi.cls in MODEL_CLASSES or (fi.cls is None and fi.module.startswith("opfython.models"))
 
 
@@ -95,6 +99,20 @@ def require_scalar_fragment(w: Walker, what: str) -> None:
     if hits:
         raise AnalysisError(f"{what}: nodes are selected with whole-array operations ({', '.join(hits)}); the rules "
                             "cover scalar loops over the nodes only - this form is outside the analysable fragment")
+    # a value read back from a table under a membership test of the same key (`if key in memo: return memo[key]`): what the
+    # table holds for that key is an invariant of the function's history, not something the rules can read off
+    from .ir import subterms as _sub
+    for e in w.events:
+        for top in [x for x in (e.value,) if x is not None] + list(e.args or ()):
+            for t in _sub(top):
+                if t[0] == "sel":
+                    for c in _sub(t[1]):
+                        if c[0] == "cmp" and c[1] in ("in", "not in") and any(
+                                a[0] == "idx" and a[1] == c[3] and a[2] == c[2] for arm in (t[2], t[3]) for a in _sub(arm)):
+                            from .ir import show as _show
+                            raise AnalysisError(f"{what}: '{_show(t)[:70]}' reads a value back from a memo table; what the table "
+                                                "holds depends on the history of calls - this form is outside the analysable "
+                                                "fragment")
     # a per-node table built by a comprehension, updated element by element and then tested: a hand-kept mirror of node
     # state; what it holds at a test is an invariant of the function, not something a shape rule can read off
     mirrors = getattr(w, "mut_tables", None) or ()
